@@ -125,7 +125,20 @@ mask_impl!(BVec4, 4, (0, 1, 2, 3), DVec4, |a, b, k| cmpk!(
 ));
 // hidden fourth lane of the operands carries garbage (a[3], b[3]) through from_vec4
 mask_impl!(BVec3A, 3, (0, 1, 2), Vec3A, |a, b, k| cmpk!(Vec3A::from_vec4(Vec4::new(a[0], a[1], a[2], a[3])), Vec3A::from_vec4(Vec4::new(b[0], b[1], b[2], b[3])), k));
+#[cfg(not(feature = "scalar"))]
 mask_impl!(BVec4A, 4, (0, 1, 2, 3), Vec4, |a, b, k| cmpk!(Vec4::new(a[0], a[1], a[2], a[3]), Vec4::new(b[0], b[1], b[2], b[3]), k));
+// scalar-math: Vec4 comparisons return BVec4; the (separate) BVec4A type is
+// only reachable through their boolean API, so the "comparison result" operand is built by new()
+#[cfg(feature = "scalar")]
+mask_impl!(BVec4A, 4, (0, 1, 2, 3), Vec4, |a, b, k| BVec4A::new(cmp6f(k, a[0], b[0]), cmp6f(k, a[1], b[1]), cmp6f(k, a[2], b[2]), cmp6f(k, a[3], b[3])));
+#[cfg(not(feature = "scalar"))]
+type M3A = BVec3A;
+#[cfg(not(feature = "scalar"))]
+type M4A = BVec4A;
+#[cfg(feature = "scalar")]
+type M3A = BVec3A;
+#[cfg(feature = "scalar")]
+type M4A = BVec4;
 
 #[derive(Clone, Debug, PartialEq, Eq, Hash)]
 struct MState {
@@ -427,8 +440,8 @@ fn main() {
     mask_model::<BVec4A>(&mut rep);
     cmpsel!(rep, Vec2, BVec2);
     cmpsel!(rep, Vec3, BVec3);
-    cmpsel!(rep, Vec3A, BVec3A);
-    cmpsel!(rep, Vec4, BVec4A);
+    cmpsel!(rep, Vec3A, M3A);
+    cmpsel!(rep, Vec4, M4A);
     cmpsel!(rep, DVec2, BVec2);
     cmpsel!(rep, DVec3, BVec3);
     cmpsel!(rep, DVec4, BVec4);
